@@ -122,6 +122,15 @@ func execRTJ(in string) string {
 	if (dverr == nil) != wantOK || (dverr == nil && strings.Join(obsGetters(dv), " ") != strings.Join(out[2:], " ")) {
 		gate = "gate=0"
 	}
+	// the deprecated aliases: DecodeJSONClaims validates, DecodeUnvalidatedJSONClaims does not
+	if da, derr := psatoken.DecodeJSONClaims(append([]byte{}, j...)); (derr == nil) != (dverr == nil) ||
+		(derr == nil && strings.Join(obsGetters(da), " ") != strings.Join(obsGetters(dv), " ")) {
+		gate = "gate=0"
+	}
+	if du, uerr := psatoken.DecodeUnvalidatedJSONClaims(append([]byte{}, j...)); (uerr == nil) != (c2 != nil) ||
+		(uerr == nil && strings.Join(obsGetters(du), " ") != strings.Join(obsGetters(c2), " ")) {
+		gate = "gate=0"
+	}
 	vjTok, dvjTok := "vj=ok", "dvj=ok"
 	if verr != nil {
 		vjTok = "vj=err"
